@@ -94,7 +94,7 @@ def bessel_args():
 FUNCS = {
     "Digamma": (real_arg.filter(not_pole).map(lambda x: ([x], [])), lambda a, i: mp.digamma(a[0]), 64),
     "Trigamma": (poly_arg.filter(not_pole).map(lambda x: ([x], [])), lambda a, i: mp.polygamma(1, a[0]), 64),
-    "Polygamma": (st.tuples(st.integers(0, 8), st.one_of(poly_pos, st.floats(-20, -0.01).filter(not_pole))).map(lambda t: ([t[1]], [t[0]])),
+    "Polygamma": (st.tuples(st.one_of(st.integers(0, 8), st.integers(0, 8), st.integers(9, 60), st.integers(61, 120)), st.one_of(poly_pos, st.floats(-20, -0.01).filter(not_pole))).map(lambda t: ([t[1]], [t[0]])),
                   lambda a, i: mp.polygamma(i[0], a[0]), 256),
     "LogErfc": (st.one_of(st.floats(-30, 30), logpos(-40, 12), logpos(-40, 4).map(lambda x: -x), around([0.0, 0.5, 8.0, 26.0, 27.0])).map(lambda x: ([x], [])),
                 lambda a, i: mp_logerfc(a[0]), 64),
@@ -225,6 +225,10 @@ def check_vs_mpmath(case, srv, stats):
         # a logarithm: an absolute error of eps is a relative error of eps in the function itself
         scale = max(scale, mpf(1))
     mult = FUNCS[fn][2]
+    if fn == "Polygamma" and ints and ints[0] > 8:
+        # high orders: the recurrence and the reflection polynomial of degree n accumulate rounding
+        # errors in proportion to the order (the 256 eps were calibrated for orders up to 8)
+        mult = int(mult * (1 + ints[0] / 16.0))
     bound = mult * EPS * scale
     if err <= bound or err <= mpf(2) ** -1070:
         stats.case(desc, classes + ["within %d eps" % mult], True)
